@@ -9,6 +9,7 @@
 //!   !park <name> / !release <name>
 //!   !bg <command>            run the command on a background task (answer later via !join)
 //!   !join                    await the background command and return its output
+//!   !rlte <QUERY ...>        the zones the ORDER BY pre-selection (RLTE planner) picks for that query
 //!   !bgcdone                 whether the background compaction round (see !bgcompact) has finished
 //!   !wait_parked <name> <ms> wait until some task is parked at <name>
 //!   !trace                   take the step-point trace
@@ -181,6 +182,32 @@ pub fn run_life() {
                             Ok(Err(_)) => json!({"panic": "compact"}), Err(_) => json!({"error": "TIMEOUT"}) },
                         None => json!({"error": "no bg compaction"}),
                     },
+                    "rlte" => {
+                        // what the ORDER BY zone pre-selection (RLTE planner) picks for a query: per shard the picked
+                        // (segment, zone) pairs and the number of zones of each live segment that carry the order field
+                        let line = rest[5..].trim();
+                        match std::panic::catch_unwind(|| parse_command(line)) {
+                            Ok(Ok(cmd)) => {
+                                use snel_db::command::handlers::segment_discovery::SegmentDiscovery;
+                                use snel_db::command::handlers::rlte_coordinator::RlteCoordinator;
+                                let info: Vec<(usize, std::path::PathBuf)> = ctx.shard_manager.all_shards().iter().map(|s| (s.id, s.base_dir.clone())).collect();
+                                let data = SegmentDiscovery::discover_all(info).await;
+                                let bases = SegmentDiscovery::extract_base_dirs(&data);
+                                let segs = SegmentDiscovery::extract_segment_map(&data);
+                                match RlteCoordinator::plan(&cmd, ctx.registry.clone(), &bases, &segs).await {
+                                    Some(o) => {
+                                        let mut m = serde_json::Map::new();
+                                        for (sh, pz) in o.per_shard.iter() {
+                                            m.insert(sh.to_string(), json!({"k": pz.k, "cutoff": pz.cutoff, "zones": pz.zones.iter().map(|(s, z)| format!("{s}:{z}")).collect::<Vec<_>>()}));
+                                        }
+                                        json!({"plan": m, "segments": segs.iter().map(|(k, v)| (k.to_string(), v.clone())).collect::<std::collections::HashMap<_, _>>()})
+                                    }
+                                    None => json!({"plan": null}),
+                                }
+                            }
+                            _ => json!({"error": "parse"}),
+                        }
+                    }
                     "bgcdone" => json!({"done": bgc.as_ref().map(|h| h.is_finished()).unwrap_or(true)}),
                     "failwrite" => { FAIL_NEXT.store(t.get(1).and_then(|s| s.parse().ok()).unwrap_or(0), std::sync::atomic::Ordering::SeqCst); json!({"ok": true}) }
                     "user" => { user = if t.get(1).copied() == Some("-") || t.len() < 2 { None } else { Some(t[1].to_string()) }; json!({"ok": true}) }
